@@ -694,6 +694,9 @@ class AEnv:
         return AT(out, scalar, zero)
 
     def _reshape(self, v, t: AT, shape):
+        if isinstance(shape, T.Term) and shape.op == "attr" and shape.args[1] == "shape":
+            # x.reshape(y.shape): the target sizes are those of y's axes
+            shape = tuple(ax.size for ax in self.need(shape.args[0]).axes)
         shp = shape if isinstance(shape, (tuple, list)) else (shape,)
         total = nf.const(1)
         for ax in t.axes:
